@@ -1,1 +1,2 @@
 //! Shared helpers for the end-to-end (real Session vs mock cluster) checks; bins under src/bin.
+pub mod c07_pager; // C07: page splits, reference expectation, scripted world, case runner, oracle
